@@ -4,6 +4,7 @@ package c01
 import (
 	"context"
 	"fmt"
+	"github.com/hedzr/is/states"
 	"math"
 	"testing"
 
@@ -16,6 +17,16 @@ import (
 func TestMain(m *testing.M) { vlib.Main(m) }
 
 var caseCounter int
+
+// appEnv is an application-provided holder of the process-wide switches: everything but the debug switch is
+// delegated to the stock implementation.
+type appEnv struct {
+	states.CmdrMinimal
+	debug bool
+}
+
+func (e *appEnv) GetDebugMode() bool  { return e.debug }
+func (e *appEnv) SetDebugMode(b bool) { e.debug = b }
 
 type regSpec struct {
 	Value   int
@@ -37,6 +48,8 @@ type scenario struct {
 	DebugLate bool
 	// DebugOffAgain: debug mode is switched on and off again before the call
 	DebugOffAgain bool
+	// OwnEnv: the holder of the process-wide switches is replaced by an application-provided one for the case
+	OwnEnv bool
 	// Bare: the Println entry points are called without any argument (a blank line at the Always severity) and the
 	// other Print/Println ones with an empty message: gated like every other call
 	Bare bool
@@ -97,6 +110,13 @@ func run(t vlib.TB, test string, sc scenario) {
 		lg.AddLevelWriter(sc.R, lvlw)
 	}
 
+	if sc.OwnEnv {
+		// the application brings its own holder of the process-wide switches (hedzr/cmdr does, through
+		// states.UpdateEnvWith): "process-wide debug mode" is whatever the holder in force says
+		stock := states.Env()
+		states.UpdateEnvWith(&appEnv{CmdrMinimal: stock})
+		defer states.UpdateEnvWith(stock)
+	}
 	debug := false
 	setDebug := func() {
 		switch sc.DebugHow {
@@ -251,6 +271,7 @@ func TestAdmissionGenerated(t *testing.T) {
 		sc.DebugLate = rapid.Bool().Draw(t, "debugModeChangedAfterSetLevel")
 		sc.DebugOffAgain = rapid.IntRange(0, 3).Draw(t, "debugOffAgain") == 0
 		sc.Bare = rapid.IntRange(0, 3).Draw(t, "bareCall") == 0
+		sc.OwnEnv = rapid.IntRange(0, 4).Draw(t, "applicationProvidedEnvHolder") == 2
 		run(t, "TestAdmissionGenerated", sc)
 	})
 }
